@@ -345,10 +345,10 @@ theorem cutsetOk_of_model (cfg : Cfg S K) (H : Nat → S → EInt) (B opt : Int)
 
 /-! ## the solver: what `process_one_node` does to the fringe, the abort flag and the incumbent -/
 
-/-- plain multiset fringe: an entry after `process_one_node` was there before or is a capped node of the cut-set -/
+/-- plain multiset fringe: an entry after `process_one_node` was there before or is a node of the cut-set -/
 theorem process_false_mem (st : SeqSt S) (N : SubP S) (me : Bool) (r x : DDRes S) (c : SubP S)
     (hc : c ∈ (st.process false N me r x).1.fringe) :
-    c ∈ st.fringe ∨ ∃ o, x = .ok o ∧ ∃ c0 ∈ o.cutset, c = { c0 with ub := min N.ub c0.ub } := by
+    c ∈ st.fringe ∨ ∃ o, x = .ok o ∧ ∃ c0 ∈ o.cutset, c = c0 := by
   unfold SeqSt.process at hc
   split at hc
   · exact Or.inl hc
@@ -368,7 +368,7 @@ theorem process_false_mem (st : SeqSt S) (N : SubP S) (me : Bool) (r x : DDRes S
             have f2 := (updateBest_fringe (st.updateBest r) x).1
             split at hc
             · rw [f2, f1] at hc; exact Or.inl hc
-            · obtain ⟨_, _, _, _, e5⟩ := enqueue_false_spec ((st.updateBest r).updateBest x) N.ub x.cutset
+            · obtain ⟨_, _, _, _, e5⟩ := enqueue_false_spec ((st.updateBest r).updateBest x) x.cutset
               rcases (e5 c).mp hc with h | ⟨c0, hc0, e, _⟩
               · rw [f2, f1] at h; exact Or.inl h
               · exact Or.inr ⟨x, rfl, c0, hc0, e⟩
@@ -381,9 +381,9 @@ theorem process_forall (Q : SubP S → Prop) (hQ : ∀ (c : SubP S) (u : Int), Q
     ∀ c ∈ (st.process dedup N me r x).1.fringe, Q c := by
   have hf : ∀ c ∈ (st.process false N me r x).1.fringe, Q c := by
     intro c hc
-    rcases process_false_mem st N me r x c hc with h | ⟨o, ho, c0, hc0, rfl⟩
+    rcases process_false_mem st N me r x c hc with h | ⟨o, ho, c0, hc0, e⟩
     · exact h1 c h
-    · exact hQ c0 _ (h2 o ho c0 hc0)
+    · rw [e]; exact h2 o ho c0 hc0
   cases dedup with
   | false => exact hf
   | true =>
@@ -406,7 +406,7 @@ theorem process_abort (dedup : Bool) (st : SeqSt S) (N : SubP S) (me : Bool) (r 
         · exact (updateBest_fringe st r).2.2.1
         · split
           · exact (updateBest_fringe _ x).2.2.1.trans (updateBest_fringe st r).2.2.1
-          · exact (enqueue_false_spec _ N.ub x.cutset).2.2.2.1.trans
+          · exact (enqueue_false_spec _ x.cutset).2.2.2.1.trans
               ((updateBest_fringe _ x).2.2.1.trans (updateBest_fringe st r).2.2.1)
   cases dedup with
   | false => exact hf
@@ -436,7 +436,7 @@ theorem process_lb_sol (dedup : Bool) (st : SeqSt S) (N : SubP S) (me : Bool) (r
         · exact Or.inr (Or.inl ⟨rfl, rfl⟩)
         · split
           · exact Or.inr (Or.inr ⟨rfl, rfl⟩)
-          · obtain ⟨e1, e2, _⟩ := enqueue_false_spec ((st.updateBest r).updateBest x) N.ub x.cutset
+          · obtain ⟨e1, e2, _⟩ := enqueue_false_spec ((st.updateBest r).updateBest x) x.cutset
             exact Or.inr (Or.inr ⟨e1, e2⟩)
   cases dedup with
   | false => exact hf
@@ -583,15 +583,15 @@ theorem pushSpec_cnt (dedup : Bool) (q : List (SubP S)) (x : SubP S) :
         refine ⟨δ, by simp only [List.length_cons]; omega, fun d => ?_⟩
         rw [cntD_cons, cntD_cons, h2 d]; omega
 
-theorem enqOne_layers (n : Nat) (dedup : Bool) (ub : Int) (st : SeqSt S) (c : SubP S) (hc : c.depth ≤ n)
+theorem enqOne_layers (n : Nat) (dedup : Bool) (st : SeqSt S) (c : SubP S) (hc : c.depth ≤ n)
     (hL : LayersOk n st.openByLayer st.fringe) :
-    LayersOk n (enqOne dedup ub st c).openByLayer (enqOne dedup ub st c).fringe ∧
-    (enqOne dedup ub st c).crashed = st.crashed := by
+    LayersOk n (enqOne dedup st c).openByLayer (enqOne dedup st c).fringe ∧
+    (enqOne dedup st c).crashed = st.crashed := by
   unfold enqOne
   simp only
   split
-  · obtain ⟨δ, h1, h2⟩ := pushSpec_cnt dedup st.fringe { c with ub := min ub c.ub }
-    have hδ : (pushSpec dedup st.fringe { c with ub := min ub c.ub }).length - st.fringe.length = δ := by omega
+  · obtain ⟨δ, h1, h2⟩ := pushSpec_cnt dedup st.fringe c
+    have hδ : (pushSpec dedup st.fringe c).length - st.fringe.length = δ := by omega
     rw [hδ]
     unfold bumpLayer
     rw [hL.2 c.depth hc]
@@ -606,16 +606,16 @@ theorem enqOne_layers (n : Nat) (dedup : Bool) (ub : Int) (st : SeqSt S) (c : Su
       rw [hL.2 d hd]; simp
   · exact ⟨hL, rfl⟩
 
-theorem enqueue_layers (n : Nat) (dedup : Bool) (ub : Int) (cs : List (SubP S)) (hcs : ∀ c ∈ cs, c.depth ≤ n) :
+theorem enqueue_layers (n : Nat) (dedup : Bool) (cs : List (SubP S)) (hcs : ∀ c ∈ cs, c.depth ≤ n) :
     ∀ (st : SeqSt S), LayersOk n st.openByLayer st.fringe →
-      LayersOk n (st.enqueue dedup ub cs).openByLayer (st.enqueue dedup ub cs).fringe ∧
-      (st.enqueue dedup ub cs).crashed = st.crashed := by
+      LayersOk n (st.enqueue dedup cs).openByLayer (st.enqueue dedup cs).fringe ∧
+      (st.enqueue dedup cs).crashed = st.crashed := by
   induction cs with
   | nil => intro st hL; exact ⟨hL, rfl⟩
   | cons c cs ih =>
     intro st hL
     rw [enqueue_eq_foldl, List.foldl_cons, ← enqueue_eq_foldl]
-    obtain ⟨h1, h2⟩ := enqOne_layers n dedup ub st c (hcs c List.mem_cons_self) hL
+    obtain ⟨h1, h2⟩ := enqOne_layers n dedup st c (hcs c List.mem_cons_self) hL
     obtain ⟨h3, h4⟩ := ih (fun c hc => hcs c (List.mem_cons_of_mem _ hc)) _ h1
     exact ⟨h3, h4.trans h2⟩
 
@@ -649,7 +649,7 @@ theorem process_layers (n : Nat) (dedup : Bool) (st : SeqSt S) (N : SubP S) (me 
       · exact ⟨hL1, c1⟩
       · split
         · exact ⟨hL2, c2.trans c1⟩
-        · obtain ⟨h3, h4⟩ := enqueue_layers n dedup N.ub x.cutset hcs _ hL2
+        · obtain ⟨h3, h4⟩ := enqueue_layers n dedup x.cutset hcs _ hL2
           exact ⟨h3, h4.trans (c2.trans c1)⟩
 
 omit [DecidableEq S] in
